@@ -582,6 +582,7 @@ def one(ctx, case, k=0, n_current=6):
         ctx.case(key=[solved.desc_key(case["desc"]), case["battery"], case["cutoff"], sorted(case["batt"].items())], nontrivial=True)
         ctx.oracle(case, "terminates", "batt_life", {}, {"watchdog_s": 60, "deplete_calls_so_far": len(obs["bat"].dep),
                                                           "note": "the scripted battery runs out after finitely many deplete calls"})
+        ctx.stats["watchdog_expired"] += 1
         return True
     bat = obs["bat"]
     ctx.case(key=[solved.desc_key(case["desc"]), case["battery"], case["cutoff"], sorted(case["batt"].items())],
@@ -643,9 +644,13 @@ def run(ctx):
     n = ctx.n(100, 5000)
     skipped = 0
     for k in range(ctx.n(10, 300)):
+        if ctx.stats["watchdog_expired"] >= 2:
+            return            # batt_life does not terminate: already reported twice with replays, every further case costs a watchdog period
         ctx.stats["idle_phase_stream"] += 1
         one(ctx, idle_phase_case(ctx.rng), k, n_current=ctx.n(6, 10))
     for k in range(n):
+        if ctx.stats["watchdog_expired"] >= 2:
+            return
         case = gen_case(ctx.rng)
         if not one(ctx, case, k, n_current=ctx.n(6, 10)):
             skipped += 1
@@ -660,6 +665,8 @@ def run(ctx):
 
 def search(ctx):
     for k in range(ctx.n(150, 1500)):
+        if ctx.stats["watchdog_expired"] >= 2:
+            return
         one(ctx, gen_case(ctx.rng, raising=0.3, heavy=0.3, p_phases=0.7), k)
 
 
